@@ -198,6 +198,22 @@ func intLit(e ast.Expr, what string) int64 {
 	return n
 }
 
+// an integer literal or one of math.MaxInt64 / math.MaxInt32
+func intOrMathConst(e ast.Expr) int64 {
+	if sel, ok := e.(*ast.SelectorExpr); ok {
+		if id, ok := sel.X.(*ast.Ident); ok && id.Name == "math" {
+			switch sel.Sel.Name {
+			case "MaxInt64":
+				return 9223372036854775807
+			case "MaxInt32":
+				return 2147483647
+			}
+		}
+		fatal("checkMandatoryFields: unrecognised constant at %s", fset.Position(e.Pos()))
+	}
+	return intLit(e, "checkMandatoryFields")
+}
+
 func strLit(e ast.Expr, what string) string {
 	bl, ok := e.(*ast.BasicLit)
 	if !ok || bl.Kind != token.STRING {
@@ -246,7 +262,7 @@ func extractDefaults(p *pkgFiles) defaults {
 // ---- 2. mandatory conditions ----
 
 type mcond struct {
-	Kind string `json:"kind"` // empty | less | unspecified
+	Kind string `json:"kind"` // empty | less | greater | unspecified
 	Path string `json:"path"`
 	K    int64  `json:"k,omitempty"`
 }
@@ -327,6 +343,8 @@ func extractMandatory(p *pkgFiles) []mcond {
 				conds = append(conds, mcond{Kind: "less", Path: path, K: intLit(be.Y, "checkMandatoryFields")})
 			case token.LEQ:
 				conds = append(conds, mcond{Kind: "less", Path: path, K: intLit(be.Y, "checkMandatoryFields") + 1})
+			case token.GTR:
+				conds = append(conds, mcond{Kind: "greater", Path: path, K: intOrMathConst(be.Y)})
 			default:
 				fatal("checkMandatoryFields: unrecognised operator %s at %s", be.Op, fset.Position(be.Pos()))
 			}
@@ -667,6 +685,8 @@ func main() {
 			cs = append(cs, "MUnspecified "+coqString(c.Path))
 		case "less":
 			cs = append(cs, fmt.Sprintf("MLess %s (%d)%%Z", coqString(c.Path), c.K))
+		case "greater":
+			cs = append(cs, fmt.Sprintf("MGreater %s (%d)%%Z", coqString(c.Path), c.K))
 		}
 	}
 	var ms, as []string
